@@ -394,8 +394,17 @@ def run(ctx: Ctx, rs: RuleSet, tier: str):
     if g.kind[m] == 'if' and isinstance(g.stmt[m].test, ast.BoolOp) and (
         isinstance(g.stmt[m].test.op, ast.And)):
       parts = g.stmt[m].test.values
+      # <default of the parameter> == <the argument's value>, the value being
+      # the loop variable over value.__arguments__.items()
+      vals = {unparse(L.target.elts[1]) for L in walk_function(f.node)
+              if isinstance(L, ast.For) and '.__arguments__.items()' in unparse(
+                  L.iter) and isinstance(L.target, ast.Tuple) and len(
+                      L.target.elts) == 2}
       eq = any(isinstance(c, ast.Compare) and isinstance(c.ops[0], ast.Eq) and
-               'default' in unparse(c) and 'attr_value' in unparse(c)
+               {unparse(c.left), unparse(c.comparators[0])} & vals and any(
+                   isinstance(x, ast.Attribute) and x.attr == 'default'
+                   for side in (c.left, c.comparators[0])
+                   for x in roles.expand(f, side, 2))
                for c in parts)
       notkw = any(isinstance(c, ast.Compare) and isinstance(
           c.ops[0], ast.NotEq) and 'VAR_KEYWORD' in unparse(c) for c in parts)
@@ -409,6 +418,28 @@ def run(ctx: Ctx, rs: RuleSet, tier: str):
   rs.check(ok, rule, f.qualname,
            'delattr is reached only through `default == value and kind != '
            'VAR_KEYWORD and ...`', ctx.loc(f, f.node))
+  # ... and through the sharing check, which has no shortcut: a value equal
+  # to the default that is also referenced elsewhere stays
+  crd = ctx.func(f'{S}.experimental.visualize.with_defaults_trimmed.'
+                 'can_remove_deep_default')
+  in_guard = all(any(isinstance(c, ast.Call) and isinstance(
+      c.func, ast.Name) and c.func.id == crd.name
+                     for c in ast.walk(g.stmt[m].test)) for m in guards)
+  helpers = set(crd.nested)
+  rets = [r for r in walk_function(crd.node) if isinstance(r, ast.Return)]
+  shortcut = [r for r in rets if not (isinstance(r.value, ast.Call) and
+                                      isinstance(r.value.func, ast.Name) and
+                                      r.value.func.id in helpers)]
+  rs.check(bool(guards) and in_guard and bool(rets) and not shortcut, rule,
+           f'{crd.qualname}:no-shortcut',
+           'the removal guard calls can_remove_deep_default, whose only '
+           'result is the sharing analysis' if in_guard and not shortcut else
+           (f'`{unparse(shortcut[0])[:50]}` answers without the sharing '
+            'analysis: an argument equal to its default whose object is also '
+            'referenced elsewhere is trimmed, so the trimmed configuration is '
+            'not == to the original and builds a graph that lost the sharing'
+            if shortcut else 'the removal guard does not consult the sharing '
+            'check'), ctx.loc(crd, shortcut[0] if shortcut else crd.node))
 
   # ---- SHAPE rules for the remaining transformations
   rule = 'SHAPE.transformations'
@@ -509,6 +540,34 @@ def run(ctx: Ctx, rs: RuleSet, tier: str):
   rs.check(ok, rule, f.qualname,
            'Config(type(value), **{every init field: its value})',
            ctx.loc(f, f.node))
+  # dataclasses with a __post_init__ (own or inherited) are refused
+  vp = f.params[0]
+  gcf = ctx.cfg(f)
+  ok = False
+  why = 'no raising test for __post_init__ found'
+  for m in gcf.nodes():
+    if gcf.kind[m] != 'if' or '__post_init__' not in unparse(gcf.stmt[m].test):
+      continue
+    t = gcf.stmt[m].test
+    mro_lookup = any(isinstance(c, ast.Call) and unparse(c.func) in (
+        'hasattr', 'getattr') and len(c.args) >= 2 and unparse(c.args[0]) in (
+            f'type({vp})', vp) and isinstance(
+                c.args[1], ast.Constant) and c.args[1].value == '__post_init__'
+                     for c in ast.walk(t))
+    own_only = any((isinstance(c, ast.Call) and unparse(c.func) == 'vars') or (
+        isinstance(c, ast.Attribute) and c.attr == '__dict__')
+                   for c in ast.walk(t))
+    r = gcf.reach([x for x, lab in gcf.succ[m] if lab == 'true'],
+                  labels=cfg_lib.NO_EXC)
+    raises = gcf.exit not in r and gcf.raise_exit in r
+    ok = mro_lookup and not own_only and raises
+    why = ('hasattr(type(value), "__post_init__") raises unless allowed' if ok
+           else 'the __post_init__ test looks only at the class\'s own '
+           'namespace (vars / __dict__): a dataclass that inherits a '
+           '__post_init__ is converted, and building the result runs the '
+           'hook a second time on already processed field values'
+           if own_only else 'the __post_init__ test does not raise')
+  rs.check(ok, rule, f'{f.qualname}:post-init', why, ctx.loc(f, f.node))
   # inline
   f = ctx.func(f'{S}.experimental.auto_config.inline')
   ok = False
@@ -584,8 +643,10 @@ def run(ctx: Ctx, rs: RuleSet, tier: str):
                'input, the build creates two objects instead of one, and the '
                'result aliases the input', ctx.loc(f, st))
   if n_sites == 0:
-    raise AnalysisError('no part-returning callback found (materialize_tags '
-                        'unwraps TaggedValue payloads)')
+    rs.ok(rule, 'no-direct-part-return',
+          'no rebuilding callback returns a part of the visited node directly '
+          '(payloads are handed on through the traversal)', '',
+          nontrivial=True)
 
   # ---- OWN
   ownrule.run_entry_points(
